@@ -110,10 +110,18 @@ theorem deleteRange_WF (f : TFile) (ks : List Key) (lo hi : TS) (h : f.WF) :
 theorem Shard.Inv_write (s : Shard) (h : s.Inv) (k : Key) (t0 step : Int) (n : Nat) (v0 : Int) :
     (s.write k t0 step n v0).Inv := ⟨h.sorted, h.gens, h.wf⟩
 
+theorem Shard.Inv_noteRead (s : Shard) (h : s.Inv) : s.noteRead.Inv := by
+  unfold Shard.noteRead
+  split
+  · exact ⟨h.sorted, h.gens, h.wf⟩
+  · exact h
+
 theorem Shard.Inv_flush (s : Shard) (h : s.Inv) : s.flush.Inv := by
   unfold Shard.flush
   split
-  · exact h
+  · split
+    · exact ⟨h.sorted, fun f hf => Nat.lt_succ_of_lt (h.gens f hf), h.wf⟩
+    · exact h
   · split
     · -- no block: no file (never the case for a non-empty cache)
       exact ⟨by simpa using h.sorted, fun f hf => Nat.lt_succ_of_lt (h.gens f (by simpa using hf)),
@@ -247,7 +255,7 @@ theorem step_Inv (st : State) (op : Op) (h : st.src.Inv) : (step st op).1.src.In
     · split <;> exact h
   | importA ids =>
     simp only [step]; split <;> exact h
-  | dump => exact h
+  | dump => exact Shard.Inv_noteRead _ h
   | bigcase n imp => simp only [step]; split <;> exact h
 
 /-! ### the flushed shard -/
@@ -255,7 +263,7 @@ theorem step_Inv (st : State) (op : Op) (h : st.src.Inv) : (step st op).1.src.In
 theorem flush_cache (s : Shard) : s.flush.cache = [] := by
   unfold Shard.flush
   split
-  · next h => simpa using h
+  · next h => split <;> simpa using h
   · rfl
 
 theorem flush_abs_files (s : Shard) (k : Key) (t : TS) :
@@ -265,7 +273,7 @@ theorem flush_abs_files (s : Shard) (k : Key) (t : TS) :
 theorem flush_no_tombs (s : Shard) (h : ∀ f ∈ s.files, f.tombs = []) : ∀ f ∈ s.flush.files, f.tombs = [] := by
   unfold Shard.flush
   split
-  · exact h
+  · split <;> exact h
   · intro f hf
     simp only [List.mem_append] at hf
     rcases hf with hf | hf
